@@ -6,6 +6,8 @@
 -/
 import SplProofs.C17
 import SplModel.TokenRef
+import SplProofs.Lemmas.Le
+import SplProofs.Lemmas.Seg
 
 namespace C16
 open Token Bytes Gen.Token TokenRef C17
@@ -233,5 +235,205 @@ theorem C16_base_eq (b : Bytes) :
     by_cases hc : MintCond b TOKEN_ID
     · rw [if_pos hc, if_pos (hiff.mp hc)]
     · rw [if_neg hc, if_neg (fun h => hc (hiff.mpr h))]
+
+theorem seg_skip (A R : Bytes) (off len k : Nat) (h : off = A.length + k) :
+    seg (A ++ R) off len = seg R k len := by
+  unfold seg; rw [drop_append_add A R off k h]
+
+theorem seg_here (B R : Bytes) (len : Nat) (h : len = B.length) : seg (B ++ R) 0 len = B := by
+  unfold seg; simp [take_append_len B R len h]
+
+theorem seg_last (B : Bytes) (len : Nat) (h : len = B.length) : seg B 0 len = B := by
+  unfold seg; subst h; simp
+
+/-- well-formed reference account: 32-byte keys, 64-bit amounts, an initialised state -/
+structure WfAccount (a : RefAccount) : Prop where
+  mint : a.mint.length = 32
+  owner : a.owner.length = 32
+  amount : a.amount < 2 ^ 64
+  delegate : ∀ k, a.delegate = some k → k.length = 32
+  state : a.state = 1 ∨ a.state = 2
+  native : ∀ n, a.isNative = some n → n < 2 ^ 64
+  damount : a.delegatedAmount < 2 ^ 64
+  close : ∀ k, a.closeAuthority = some k → k.length = 32
+
+theorem toLe_len (k n : Nat) : (toLe k n).length = k := by
+  induction k generalizing n with
+  | zero => rfl
+  | succ k ih => simp [toLe, ih]
+
+theorem packKey_len (o : Option Bytes) (h : ∀ k, o = some k → k.length = 32) : (packCOptionKey o).length = 36 := by
+  cases o with
+  | none => simp [packCOptionKey]
+  | some k => simp [packCOptionKey, h k rfl]
+
+theorem packU64_len (o : Option Nat) : (packCOptionU64 o).length = 12 := by
+  cases o with
+  | none => simp [packCOptionU64]
+  | some k => simp [packCOptionU64, toLe_len]
+
+theorem unpackKey_pack (o : Option Bytes) : unpackCOptionKey (packCOptionKey o) = some o := by
+  cases o with
+  | none => simp [packCOptionKey, unpackCOptionKey, zeros]
+  | some k => simp [packCOptionKey, unpackCOptionKey]
+
+theorem unpackU64_pack (o : Option Nat) (h : ∀ n, o = some n → n < 2 ^ 64) :
+    unpackCOptionU64 (packCOptionU64 o) = some o := by
+  cases o with
+  | none => simp [packCOptionU64, unpackCOptionU64, zeros]
+  | some n =>
+    simp [packCOptionU64, unpackCOptionU64]
+    exact fromLe_toLe 8 n (h n rfl)
+
+theorem packAccount_len (a : RefAccount) (w : WfAccount a) : (packAccount a).length = 165 := by
+  simp [packAccount, w.mint, w.owner, toLe_len, packKey_len _ w.delegate, packU64_len, packKey_len _ w.close]
+
+/-- The reference codec is a codec: unpacking a packed (initialised, well-formed) account gives it back. -/
+theorem unpackAccount_pack (a : RefAccount) (w : WfAccount a) : unpackAccount (packAccount a) = some a := by
+  have hl := packAccount_len a w
+  have hd := packKey_len _ w.delegate
+  have hc := packKey_len _ w.close
+  have hn := packU64_len a.isNative
+  have e : packAccount a = a.mint ++ (a.owner ++ (toLe 8 a.amount ++ (packCOptionKey a.delegate ++ ([a.state] ++
+      (packCOptionU64 a.isNative ++ (toLe 8 a.delegatedAmount ++ packCOptionKey a.closeAuthority)))))) := by
+    simp [packAccount]
+  have s0 : seg (packAccount a) 0 32 = a.mint := by rw [e]; exact seg_here _ _ _ w.mint.symm
+  have s1 : seg (packAccount a) 32 32 = a.owner := by
+    rw [e, seg_skip _ _ 32 32 0 (by rw [w.mint])]; exact seg_here _ _ _ w.owner.symm
+  have s2 : seg (packAccount a) 64 8 = toLe 8 a.amount := by
+    rw [e, seg_skip _ _ 64 8 32 (by rw [w.mint]), seg_skip _ _ 32 8 0 (by rw [w.owner])]
+    exact seg_here _ _ _ (toLe_len _ _).symm
+  have s3 : seg (packAccount a) 72 36 = packCOptionKey a.delegate := by
+    rw [e, seg_skip _ _ 72 36 40 (by rw [w.mint]), seg_skip _ _ 40 36 8 (by rw [w.owner]),
+      seg_skip _ _ 8 36 0 (by rw [toLe_len])]
+    exact seg_here _ _ _ hd.symm
+  have s4 : seg (packAccount a) 108 1 = [a.state] := by
+    rw [e, seg_skip _ _ 108 1 76 (by rw [w.mint]), seg_skip _ _ 76 1 44 (by rw [w.owner]),
+      seg_skip _ _ 44 1 36 (by rw [toLe_len]), seg_skip _ _ 36 1 0 (by rw [hd])]
+    exact seg_here _ _ _ rfl
+  have s5 : seg (packAccount a) 109 12 = packCOptionU64 a.isNative := by
+    rw [e, seg_skip _ _ 109 12 77 (by rw [w.mint]), seg_skip _ _ 77 12 45 (by rw [w.owner]),
+      seg_skip _ _ 45 12 37 (by rw [toLe_len]), seg_skip _ _ 37 12 1 (by rw [hd]),
+      seg_skip _ _ 1 12 0 (by simp)]
+    exact seg_here _ _ _ hn.symm
+  have s6 : seg (packAccount a) 121 8 = toLe 8 a.delegatedAmount := by
+    rw [e, seg_skip _ _ 121 8 89 (by rw [w.mint]), seg_skip _ _ 89 8 57 (by rw [w.owner]),
+      seg_skip _ _ 57 8 49 (by rw [toLe_len]), seg_skip _ _ 49 8 13 (by rw [hd]),
+      seg_skip _ _ 13 8 12 (by simp), seg_skip _ _ 12 8 0 (by rw [hn])]
+    exact seg_here _ _ _ (toLe_len _ _).symm
+  have s7 : seg (packAccount a) 129 36 = packCOptionKey a.closeAuthority := by
+    rw [e, seg_skip _ _ 129 36 97 (by rw [w.mint]), seg_skip _ _ 97 36 65 (by rw [w.owner]),
+      seg_skip _ _ 65 36 57 (by rw [toLe_len]), seg_skip _ _ 57 36 21 (by rw [hd]),
+      seg_skip _ _ 21 36 20 (by simp), seg_skip _ _ 20 36 8 (by rw [hn]),
+      seg_skip _ _ 8 36 0 (by rw [toLe_len])]
+    exact seg_last _ _ hc.symm
+  have hst : ¬ a.state.toNat > 2 := by rcases w.state with h | h <;> rw [h] <;> decide
+  have hst0 : a.state ≠ 0 := by rcases w.state with h | h <;> rw [h] <;> decide
+  unfold unpackAccount unpackAccountUnchecked
+  rw [if_neg (by rw [hl]; decide)]
+  simp only [s0, s1, s2, s3, s4, s5, s6, s7, unpackKey_pack, unpackU64_pack _ w.native, List.headD_cons,
+    Option.bind_eq_bind, Option.bind_some, if_neg hst, Option.pure_def,
+    fromLe_toLe 8 _ w.amount, fromLe_toLe 8 _ w.damount]
+  rw [if_pos hst0]
+
+structure WfMint (m : RefMint) : Prop where
+  auth : ∀ k, m.mintAuthority = some k → k.length = 32
+  supply : m.supply < 2 ^ 64
+  init : m.isInitialized = true
+  freeze : ∀ k, m.freezeAuthority = some k → k.length = 32
+
+theorem packMint_len (m : RefMint) (w : WfMint m) : (packMint m).length = 82 := by
+  simp [packMint, packKey_len _ w.auth, packKey_len _ w.freeze]
+
+theorem unpackMint_pack (m : RefMint) (w : WfMint m) : unpackMint (packMint m) = some m := by
+  have hl := packMint_len m w
+  have ha := packKey_len _ w.auth
+  have hf := packKey_len _ w.freeze
+  have e : packMint m = packCOptionKey m.mintAuthority ++ (toLe 8 m.supply ++ ([m.decimals] ++
+      ([if m.isInitialized then 1 else 0] ++ packCOptionKey m.freezeAuthority))) := by
+    simp [packMint]
+  have s0 : seg (packMint m) 0 36 = packCOptionKey m.mintAuthority := by rw [e]; exact seg_here _ _ _ ha.symm
+  have s1 : seg (packMint m) 36 8 = toLe 8 m.supply := by
+    rw [e, seg_skip _ _ 36 8 0 (by rw [ha])]; exact seg_here _ _ _ (toLe_len _ _).symm
+  have s2 : seg (packMint m) 44 1 = [m.decimals] := by
+    rw [e, seg_skip _ _ 44 1 8 (by rw [ha]), seg_skip _ _ 8 1 0 (by rw [toLe_len])]; exact seg_here _ _ _ rfl
+  have s3 : seg (packMint m) 45 1 = [if m.isInitialized then 1 else 0] := by
+    rw [e, seg_skip _ _ 45 1 9 (by rw [ha]), seg_skip _ _ 9 1 1 (by rw [toLe_len]), seg_skip _ _ 1 1 0 (by simp)]
+    exact seg_here _ _ _ rfl
+  have s4 : seg (packMint m) 46 36 = packCOptionKey m.freezeAuthority := by
+    rw [e, seg_skip _ _ 46 36 10 (by rw [ha]), seg_skip _ _ 10 36 2 (by rw [toLe_len]), seg_skip _ _ 2 36 1 (by simp),
+      seg_skip _ _ 1 36 0 (by simp)]
+    exact seg_last _ _ hf.symm
+  unfold unpackMint unpackMintUnchecked
+  rw [if_neg (by rw [hl]; decide)]
+  simp only [s0, s1, s2, s3, s4, unpackKey_pack, List.headD_cons, Option.bind_eq_bind, Option.bind_some,
+    Option.pure_def, fromLe_toLe 8 _ w.supply, w.init]
+  cases m with
+  | mk a s d i f =>
+    have hi : i = true := w.init
+    subst hi
+    simp
+
+
+
+/-- From states rather than bytes: every well-formed initialised account state — any keys, any amount,
+    any option tags, state initialised or frozen — packed by the reference codec parses to its mint,
+    owner and amount under both program ids, and under Token-2022 also with the account-type marker
+    followed by extension data of any length and content (total length 355 excepted: that is the
+    multisig length, which the reference codec rejects too). -/
+theorem C16_packed_account (a : RefAccount) (w : WfAccount a) (ext : Bytes) :
+    genericAccount (packAccount a) TOKEN_ID = .ok (some (accView a)) ∧
+    genericAccount (packAccount a) TOKEN_2022_ID = .ok (some (accView a)) ∧
+    ((packAccount a ++ 2 :: ext).length ≠ 355 →
+      genericAccount (packAccount a ++ 2 :: ext) TOKEN_2022_ID = .ok (some (accView a))) := by
+  have hu := unpackAccount_pack a w
+  have hl := packAccount_len a w
+  refine ⟨C16_account_token _ a hu, C16_account_t22 _ a ?_, fun h355 => C16_account_t22 _ a ?_⟩
+  · unfold t22UnpackAccount
+    rw [if_neg (by rw [hl]; decide)]
+    have : (packAccount a).take 165 = packAccount a := List.take_of_length_le (by omega)
+    have hd : (packAccount a).drop 165 = [] := List.drop_of_length_le (by omega)
+    simp [this, hd, hu]
+  · unfold t22UnpackAccount
+    rw [if_neg (by intro h; rcases h with h | h; exact h355 h; simp at h; omega)]
+    have ht : (packAccount a ++ 2 :: ext).take 165 = packAccount a := take_append_len _ _ _ hl.symm
+    have hd : (packAccount a ++ 2 :: ext).drop 165 = 2 :: ext := drop_append_len _ _ _ hl.symm
+    simp [ht, hd, hu]
+
+/-- The same for mints: base layout under both ids, and under Token-2022 padded with zeros to the
+    account length, the mint marker and any extension data. -/
+theorem C16_packed_mint (m : RefMint) (w : WfMint m) (ext : Bytes) :
+    genericMint (packMint m) TOKEN_ID = .ok (some (mintView m)) ∧
+    genericMint (packMint m) TOKEN_2022_ID = .ok (some (mintView m)) ∧
+    ((packMint m ++ (zeros 83 ++ 1 :: ext)).length ≠ 355 →
+      genericMint (packMint m ++ (zeros 83 ++ 1 :: ext)) TOKEN_2022_ID = .ok (some (mintView m))) := by
+  have hu := unpackMint_pack m w
+  have hl := packMint_len m w
+  refine ⟨C16_mint_token _ m hu, C16_mint_t22 _ m ?_, fun h355 => C16_mint_t22 _ m ?_⟩
+  · unfold t22UnpackMint
+    rw [if_neg (by rw [hl]; decide)]
+    have : (packMint m).take 82 = packMint m := List.take_of_length_le (by omega)
+    have hd : (packMint m).drop 82 = [] := List.drop_of_length_le (by omega)
+    simp [this, hd, hu]
+  · unfold t22UnpackMint
+    rw [if_neg (by intro h; rcases h with h | h; exact h355 h; simp at h; omega)]
+    have ht : (packMint m ++ (zeros 83 ++ 1 :: ext)).take 82 = packMint m := take_append_len _ _ _ hl.symm
+    have hd : (packMint m ++ (zeros 83 ++ 1 :: ext)).drop 82 = zeros 83 ++ 1 :: ext := drop_append_len _ _ _ hl.symm
+    have h83 : (zeros 83 ++ 1 :: ext).take 83 = zeros 83 := take_append_len _ _ _ (by simp)
+    have d83 : (zeros 83 ++ 1 :: ext).drop 83 = 1 :: ext := drop_append_len _ _ _ (by simp)
+    simp [ht, hd, hu, h83, d83]
+    omega
+
+
+/-! non-vacuity: a concrete well-formed state (delegate set, native, frozen) and its 165-byte packing -/
+def exAccount : RefAccount :=
+  ⟨List.replicate 32 1, List.replicate 32 2, 1000000, some (List.replicate 32 3), 2, some 5, 7, none⟩
+example : WfAccount exAccount :=
+  ⟨by decide, by decide, by decide, (by intro k h; cases h; decide), by decide, (by intro n h; cases h; decide),
+   by decide, (by intro k h; cases h)⟩
+set_option maxRecDepth 20000 in
+example : (packAccount exAccount).length = 165 ∧ unpackAccount (packAccount exAccount) = some exAccount := by decide
+example : WfMint ⟨none, 42, 9, true, some (List.replicate 32 4)⟩ :=
+  { auth := (by intro k h; cases h), supply := (by decide), init := rfl, freeze := (by intro k h; cases h; decide) }
 
 end C16
